@@ -44,7 +44,7 @@ static void run() {
         W().ev.enumerated["cell scripts: entry point x outcome x {no failure, 1st/2nd/3rd request fails} x 40 language/coin variants"] += done;
     }
     // (2) random sequences with frequent failure schedules
-    seqgen::Weights wt{{inject_ok ? 1 : 0, 3, 10, 10, 10, 10, 4, 3, 1, 5, 1, 6, 2, 10}};
+    seqgen::Weights wt{{inject_ok ? 3 : 0, 3, 10, 10, 10, 10, 4, 3, 1, 5, 1, 6, 2, 10}};
     rc_run("c15-sequences", a.n(60000, 600000), 100, [&]() {
         auto seq = *seqgen::sequence(wt, *rc::gen::element(6, 15, 40));
         Case c; c.set("ops", ops::to_hex(seq)); c.set("inject", inject_ok ? 1 : 0); c.set("gen", "random-walk"); set_current(c);
